@@ -168,7 +168,7 @@ def step (expand : κ → List (Import ρ) → St κ → Res κ ρ (St κ)) (doc
   | some file =>
     match (if p ∈ st.expanded then Res.ok st
            else match expand p file.imports { st with expanded := p :: st.expanded } with
-             | .ok st' => Res.ok { st' with finished := p :: st'.finished }
+             | .ok st' => Res.ok { st' with finished := st'.finished ++ [p] }
              | r => r) with
     | .ok st1 =>
       match missingTarget imp.targets file.defs with
